@@ -1220,3 +1220,33 @@ Proof.
   destruct (lookup_values kinds (snd r)) as [| |vals u]; [discriminate|contradiction|].
   destruct u; [contradiction|discriminate].
 Qed.
+
+(* ------------------------------------------------------------------ recorded rounds without rewriting = settle_trace *)
+
+Lemma zs_eqb_refl : forall l, zs_eqb l l = true.
+Proof. intros l. apply zs_eqb_spec. reflexivity. Qed.
+
+(* every round carries the same source rows and starts from the table the model itself has *)
+Fixpoint rounds_follow (kinds : list kind) (prev : list (Z * list Z)) (src : list srow) (summ : list mrow)
+  (rounds : list round) : Prop :=
+  match rounds with
+  | [] => True
+  | (d, src', start) :: rest =>
+      src' = src /\ start = summ /\
+      rounds_follow kinds (snd (pass_d kinds d prev src summ)) src
+                    (auto_remove (with_groups (fst (pass_d kinds d prev src summ))
+                                              (snd (pass_d kinds d prev src summ)))) rest
+  end.
+
+Lemma settle_rounds_const : forall rounds kinds prev src summ,
+  rounds_follow kinds prev src summ rounds ->
+  settle_rounds kinds prev summ rounds =
+  settle_trace kinds prev src summ (map (fun r : round => fst (fst r)) rounds).
+Proof.
+  induction rounds as [|[[d src'] start] rest IH]; intros kinds prev src summ H; [reflexivity|].
+  cbn [rounds_follow] in H. destruct H as [-> [-> H]].
+  cbn [settle_rounds settle_trace map fst snd]. rewrite zs_eqb_refl.
+  destruct (pass_d kinds d prev src summ) as [s1 hs] eqn:Ep. cbn [fst snd] in H.
+  destruct rest as [|r rest']; [reflexivity|].
+  specialize (IH kinds hs src _ H). cbn [map] in *. exact IH.
+Qed.
